@@ -47,25 +47,32 @@ pub assume_specification [Waker::wake] (w: Waker)
 //@ close
 
 impl<'l, Data> LoopInner<'l, Data> {
-//@ slice src/io.rs / impl IoLoopInner for LoopInner<'_, Data> / fn kill :: body props=C16,C06 name=IoLoopInner::kill
-//@ rw R10 * <<dispatcher.borrow()>> => <<disp_cell>>
+//@ slice src/io.rs / impl IoLoopInner for LoopInner<'_, Data> / fn kill :: body props=C16,C06,C15 name=IoLoopInner::kill
+//@ rw R10 * <<dispatcher .borrow()>> => <<disp_cell>>
+//@ rw R10 * <<dispatcher.borrow_mut()>> => <<&mut *disp_cell>>
 //@ rw R10 * <<self.sources.borrow_mut()>> => <<sources>>
 //@ rw R10 * <<self.poll.try_borrow()>> => <<Ok::<&Poll, ()>(poll)>>
 //@ sig
-    /// S1 slice: the whole body of `IoLoopInner::kill` (what Async's Drop -- hence also into_inner -- does to the loop).
-    /// Rule R10: the RefCell borrows become parameters (`disp_cell`: the adapter's IoDispatcher, `sources`: the slot list,
-    /// `poll`: the Poll; a `try_borrow` is taken to succeed -- re-entrancy is C08 territory).
-    fn kill_body(&self, disp_cell: &IoDispatcher, sources: &mut SourceList<'l, Data>, poll: &Poll)
+    /// S1 slice: the whole body of `IoLoopInner::kill` (what Async's Drop -- hence also into_inner -- and a failed adapt_io
+    /// do to the loop). Rule R10: the RefCell borrows become parameters (`disp_cell`: the adapter's IoDispatcher, `sources`:
+    /// the slot list, `poll`: the Poll; a `try_borrow` is taken to succeed -- re-entrancy is C08 territory).
+    fn kill_body(&self, disp_cell: &mut IoDispatcher, sources: &mut SourceList<'l, Data>, poll: &Poll)
 //@ spec
-        requires old(sources).wf(), disp_cell.token is Some,
+        requires
+            old(sources).wf(), old(disp_cell).token is Some,
+            // C15 (may-call side): the poller may be asked to delete ONLY the adapter's own fd and ONLY if the adapter itself
+            // registered it -- after a rejected adapt_io the fd may belong to another source of the loop
+            forall|d: int| #[trigger] poll.pl().may_delete(d) <==> (d == old(disp_cell).fd as int && old(disp_cell).is_registered),
         ensures
             final(sources).wf(), final(sources)@.len() == old(sources)@.len(),
             // C06: the adapter's slot is vacated (if its token is still the live one), no other slot is touched
-            old(sources).lookup(disp_cell.token->Some_0.inner) matches Some(i) ==> final(sources)@[i].vacant() && final(sources)@[i].tok() == old(sources)@[i].tok(),
-            forall|k: int| 0 <= k < old(sources)@.len() && old(sources).lookup(disp_cell.token->Some_0.inner) != Some(k) ==> #[trigger] final(sources)@[k] == old(sources)@[k],
+            old(sources).lookup(old(disp_cell).token->Some_0.inner) matches Some(i) ==> final(sources)@[i].vacant() && final(sources)@[i].tok() == old(sources)@[i].tok(),
+            forall|k: int| 0 <= k < old(sources)@.len() && old(sources).lookup(old(disp_cell).token->Some_0.inner) != Some(k) ==> #[trigger] final(sources)@[k] == old(sources)@[k],
             // C16: the IO object may outlive its adapter (into_inner): by the time the adapter is gone its fd has been
-            // taken out of the OS poller, so the same fd can be adapted again and no ghost event arrives
-            poll.pl().w_delete_called(disp_cell.fd as int),
+            // taken out of the OS poller (if the adapter had put it there), so the same fd can be adapted again and no ghost
+            // event arrives; the flag is cleared so that nothing deletes the fd a second time
+            old(disp_cell).is_registered ==> poll.pl().w_delete_called(old(disp_cell).fd as int) && !final(disp_cell).is_registered,
+            final(disp_cell).fd == old(disp_cell).fd, final(disp_cell).token == old(disp_cell).token,
 //@ endslice
 
 //@ slice src/io.rs / impl IoLoopInner for LoopInner<'_, Data> / fn register :: body props=C16,C17 name=IoLoopInner::register
@@ -144,22 +151,27 @@ pub open spec fn is_nonblock(f: crate::rustix::fs::OFlags) -> bool { (f.bits & 0
 //@ enditem
 
 impl<'l, F: AsFd> Async<'l, F> {
-//@ slice src/io.rs / impl Async<'l, F> / fn new :: stmts <<if let Err(err) = unsafe { inner.register(&dispatcher) }>> .. <<if let Err(err) = unsafe { inner.register(&dispatcher) }>> props=C15,C16,C17 name=Async::new::register_step
+//@ slice src/io.rs / impl Async<'l, F> / fn new :: stmts <<if let Err(err) = unsafe { inner.register(&dispatcher) }>> .. <<dispatcher.borrow_mut().is_registered = true;>> props=C15,C16,C17 name=Async::new::register_step
+//@ rw R10 * <<dispatcher.borrow_mut()>> => <<disp_cell>>
 //@ sig
-    /// S1 slice of Async::new: the statement that registers the freshly built dispatcher and cleans up if that fails.
-    /// Free variables `inner`, `dispatcher`, `fd`, `was_nonblocking` become parameters. Dropped: everything before
-    /// (switch to non-blocking, dispatcher construction, slot allocation -- it needs an unsizing coercion Verus does not
-    /// support) and after (the transmute that erases `Data`, the struct literal).
-    fn new_register_step<Data>(inner: Rc<LoopInner<'l, Data>>, dispatcher: Rc<RefCell<IoDispatcher>>, fd: F, was_nonblocking: bool) -> (r: crate::Result<()>)
+    /// S1 slice of Async::new: the statement that registers the freshly built dispatcher and cleans up if that fails,
+    /// and the one that records a successful registration. Free variables `inner`, `dispatcher`, `fd`, `was_nonblocking`
+    /// become parameters; R10: `dispatcher.borrow_mut()` becomes `disp_cell`. Dropped: everything before (switch to
+    /// non-blocking, dispatcher construction, slot allocation -- it needs an unsizing coercion Verus does not support) and
+    /// after (the transmute that erases `Data`, the struct literal).
+    fn new_register_step<Data>(inner: Rc<LoopInner<'l, Data>>, dispatcher: Rc<RefCell<IoDispatcher>>, disp_cell: &mut IoDispatcher, fd: F, was_nonblocking: bool) -> (r: crate::Result<()>)
 //@ spec
         requires
             // C15 (may-call side): the only flag word the failure path may install is the one that puts O_NONBLOCK back
             forall|d: int, f: crate::rustix::fs::OFlags| #[trigger] crate::rustix::fs::may_setfl(d, f) <==> (
                 d == crate::ext::fd_raw(&fd) && f == with_nonblock(crate::rustix::fs::flags_of(d), was_nonblocking) && f != crate::rustix::fs::flags_of(d)),
         ensures
-            // C15: if registering the fd fails the adapter's slot is given back to the loop (kill vacates it and makes sure
-            // the fd is not in the poller) before the error is returned: the loop is as if adapt_io had not been called
-            r is Err ==> inner.w_killed(&*dispatcher),
+            // C15: if registering the fd fails the adapter's slot is given back to the loop (kill vacates it; it does not touch
+            // the poller because the adapter is not marked registered) before the error is returned: the loop is as if
+            // adapt_io had not been called
+            r is Err ==> inner.w_killed(&*dispatcher) && final(disp_cell).is_registered == old(disp_cell).is_registered,
+            // C16: a successful registration is recorded, so that kill() will take the fd out of the poller again
+            r is Ok ==> final(disp_cell).is_registered,
 //@ entry
         proof { broadcast use crate::ext::axiom_fd_raw_ref; }
 //@ tail
